@@ -403,12 +403,29 @@ fn large_cleanup_case(cx: &mut Cx) {
         sim.nodes[0].drv.verif_set_distance_range(to_u256(&range));
     }
     let before: BTreeSet<Vec<u8>> = sim.nodes[0].drv.verif_store_mut().expect("store").verif_snapshot().records.iter().map(|(k, _, _)| k.to_vec()).collect();
+    let quoted_close = |sim: &mut Sim, rng: &mut rand::rngs::StdRng| -> Option<usize> {
+        let (tx, mut rx) = oneshot::channel();
+        let _g = sim.rt.enter();
+        let _ = sim.nodes[0].drv.verif_handle_local_cmd(LocalSwarmCmd::GetLocalQuotingMetrics { key: RecordKey::from(gen::bytes(rng, 32)), sender: tx });
+        rx.try_recv().ok().map(|(qm, _)| qm.close_records_stored)
+    };
+    let quoted_before = quoted_close(&mut sim, &mut cx.rng);
     {
         let _g = sim.rt.enter();
         let _ = sim.nodes[0].drv.verif_handle_local_cmd(LocalSwarmCmd::TriggerIrrelevantRecordCleanup);
     }
     sim.settle(&mut d);
-    let after: BTreeSet<Vec<u8>> = sim.nodes[0].drv.verif_store_mut().expect("store").verif_snapshot().records.iter().map(|(k, _, _)| k.to_vec()).collect();
+    let snap_after = sim.nodes[0].drv.verif_store_mut().expect("store").verif_snapshot();
+    let after: BTreeSet<Vec<u8>> = snap_after.records.iter().map(|(k, _, _)| k.to_vec()).collect();
+    let quoted_after = quoted_close(&mut sim, &mut cx.rng);
+    // whatever the clean-up did, the farthest-record marker must name the farthest record still held
+    {
+        let true_far = after.iter().map(|k| (ref_distance(&me.to_bytes(), k), k.clone())).max();
+        let got_far = snap_after.farthest_record.as_ref().map(|(k, dd)| (from_u256(dd), k.to_vec()));
+        if true_far != got_far && !after.is_empty() {
+            cx.violation("farthest-record-wrong", format!("after a clean-up of {} -> {} records the store's farthest record is {:?}, the farthest held record is {:?}", before.len(), after.len(), got_far.map(|(dd, _)| short_hex(&dd)), true_far.map(|(dd, _)| short_hex(&dd))), json!({"held": before.len(), "kept": after.len()}));
+        }
+    }
     cx.eval();
     cx.count("large-cleanups");
     let applies = with_range && before.len() >= 16 * 1024 / 10;
@@ -431,7 +448,20 @@ fn large_cleanup_case(cx: &mut Cx) {
             }
         }
         if !after.is_subset(&before) {
-            cx.violation("cleanup-added-records", "clean-up added records".to_string(), w);
+            cx.violation("cleanup-added-records", "clean-up added records".to_string(), w.clone());
+        }
+        // the records a quote counts as "within the responsible range" are exactly those the clean-up keeps
+        // (the range is the distance of a held record here, so one record sits exactly on the edge)
+        cx.count("quotes-judged-against-cleanup");
+        if let Some(q) = quoted_before {
+            if q != after.len() {
+                cx.violation("quote-close-records-differ-from-what-cleanup-keeps", format!("before the clean-up the quote counted {q} records within the responsible range, the clean-up kept {} (held before: {})", after.len(), before.len()), w.clone());
+            }
+        }
+        if let Some(q) = quoted_after {
+            if q != after.len() {
+                cx.violation("quote-close-records-wrong", format!("after the clean-up the quote counts {q} records within range, {} are held and all of them are in range", after.len()), w);
+            }
         }
     }
     cx.nontrivial(&("large", n, with_range, cx.index));
